@@ -94,6 +94,8 @@ type hdOp struct {
 	HasF  bool   `json:"hasf,omitempty"`
 	HasIC bool   `json:"hasic,omitempty"`
 
+	After int `json:"after,omitempty"` // wfail on a connection without a session: the server's writes fail after this many more frames
+
 	// media
 	Mk     string `json:"mk,omitempty"`     // offer, requestoffer, candidate, sendoffer, answer, unshareScreen
 	Stream string `json:"stream,omitempty"` // video, screen, audio
@@ -498,6 +500,37 @@ func (r *hdRun) exec(o *hdOp) string {
 		}
 		msg["hello"] = hello
 		data, _ := json.Marshal(msg)
+		c.mu.Lock()
+		half := c.half
+		c.mu.Unlock()
+		if half && r.pub[o.C] == "" {
+			// the server's writes to this connection fail from some frame on (see "wfail" with After): no marker can
+			// be answered; the hello is processed when the server hit the failing write (the harness's end reads EOF)
+			// and nothing runs any more
+			if err := c.send(data); err == nil {
+				idle := func(need int, d time.Duration) {
+					deadline := time.Now().Add(d)
+					for n := 0; time.Now().Before(deadline) && n < need; {
+						if s.idleDump() {
+							n++
+						} else {
+							n = 0
+						}
+						time.Sleep(300 * time.Microsecond)
+					}
+				}
+				select {
+				case <-c.gone:
+				case <-time.After(30 * time.Millisecond):
+					// fewer frames than allowed were written so far: wait until nothing runs any more
+					idle(10, 2*time.Second)
+				}
+				idle(3, 2*time.Second)
+				// "from some frame on" ends here at the latest: the next write fails
+				s.failWritesAfter(o.C, 0)
+			}
+			return term
+		}
 		s.sendSync(c, data)
 		return term
 	case "helloabort":
@@ -704,6 +737,15 @@ func (r *hdRun) exec(o *hdOp) string {
 		// The server's writes to this connection fail from now on (it still believes the client connected).
 		// The model has no such state: the op is written as OConnect on the existing connection (a no-op of
 		// the model), from which on only the predicates judge the case (see Run_Hub.v is_wfail).
+		if c != nil && o.After > 0 && r.pub[o.C] == "" {
+			// a connection that has not said hello: the server's writes to it fail after o.After more frames (a resume
+			// on it: the reply, then o.After-1 messages of the queue, then the connection is cut for the server's
+			// writes while it flushes the rest). Same marker; the predicates know the connection has no session.
+			if !s.failWritesAfter(o.C, o.After) {
+				return ""
+			}
+			return fmt.Sprintf("OConnect %d 0", o.C)
+		}
 		if c == nil || r.pub[o.C] == "" || !s.breakWrites(o.C) {
 			return ""
 		}
